@@ -11,7 +11,7 @@ open DendroModel
 
 inductive Stop where
   | parse (e : PErr)
-  | internal (w : String)       -- `None` dereferenced / loop without progress: shown unreachable in Props/C20.lean
+  | internal (w : String)       -- a loop of the model asked to continue without having consumed input (`iter`); `nexus_never_internal` shows it unreachable
   | unmodelled (w : String)     -- construct outside the modelled fragment (no verdict is claimed)
 
 abbrev R := Except Stop
@@ -38,6 +38,7 @@ structure RS where
   quoted : Bool := false                  -- tokenizer.is_token_quoted
   ntax : Option Nat := none               -- _file_specified_ntax
   nchar : Option Nat := none              -- _file_specified_nchar
+  blockNtax : Option Nat := none          -- _block_specified_ntax (NTAX of the CHARACTERS/DATA block's own DIMENSIONS)
   tns : List Tns := []
   mats : List (List Nat) := []            -- row lengths of the finished matrices
   matTitles : List (Option (List Char)) := []
@@ -50,13 +51,14 @@ structure RS where
   interleave : Bool := false
   -- registers (local variables of the Python functions)
   btok : Option (List Char) := none       -- `token` of the block-level loops
-  stok : Option (List Char) := none       -- `token` of the statement-level loops / return value of a statement parser
+  stok : List Char := []                  -- `token` of the statement-level loops (always a `str`: read with `require_next_token`) / return value of a statement parser
   blockTitle : Option (List Char) := none
   linkTitle : Option (List Char) := none
   linkTaxa : Option (List Char) := none
   linkChars : Option (List Char) := none
   nsIdx : Option Nat := none              -- `taxon_namespace` local of the TAXA / TREES block
-  mapper : Option Mapper := none
+  mapper : Mapper := {}                   -- `taxon_symbol_mapper` of the TREES block …
+  hasMapper : Bool := false               -- … and whether it `is not None`
   nsMutable : Bool := true
   treesBlock : Bool := false              -- `trees_block is not None`
   rows : List (Nat × Nat) := []           -- current matrix: (taxon index, cells)
@@ -113,7 +115,7 @@ def truthy (t : Option (List Char)) : Bool := match t with | none => false | som
 def skipToSemi (s : RS) : R RS :=
   iter (fun s => do
     let (t, s) ← nextTok s
-    pure (!(t == some semi) && !s.eof && t.isSome, s)) s
+    pure (!(t == some semi.text) && !s.eof && t.isSome, s)) s
 
 /-- `_consume_to_end_of_block(token)` -/
 def consumeToEnd (token : Option (List Char)) (s : RS) : R RS :=
@@ -129,31 +131,31 @@ def consumeToEnd (token : Option (List Char)) (s : RS) : R RS :=
 def parseTitle (s : RS) : R RS := do
   let (title, s) ← requireTok s
   let (sc, s) ← requireTok s
-  if sc != semi then perr .nexus else pure { s with stok := some title }
+  if sc != semi.text then perr .nexus else pure { s with stok := title }
 
 /-- `_parse_dimensions_statement()` -/
 def parseDimensions (s : RS) : R RS := do
   let (t, s) ← requireUcase s
   let s ← iter (fun s => do
-    if s.stok == some semi then pure (false, s)
+    if s.stok == semi.text then pure (false, s)
     else
       let s ← (do
-        if s.stok == some (kw "NTAX") then
+        if s.stok == kw "NTAX" then
           let (t, s) ← requireUcase s
           if t == ['='] then
             let (t, s) ← requireUcase s
             if isDigitStr t then pure { s with ntax := some (natOfDigits t) } else perr .nexus
           else perr .nexus
-        else if s.stok == some (kw "NCHAR") then
+        else if s.stok == kw "NCHAR" then
           let (t, s) ← requireUcase s
           if t == ['='] then
             let (t, s) ← requireUcase s
             if isDigitStr t then pure { s with nchar := some (natOfDigits t) } else perr .nexus
           else perr .nexus
-        else if s.stok == some (kw "BEGIN") then perr .nexus
+        else if s.stok == kw "BEGIN" then perr .nexus
         else pure s : R RS)
       let (t, s) ← requireUcase s
-      pure (true, { s with stok := some t })) { s with stok := some t }
+      pure (true, { s with stok := t })) { s with stok := t }
   pure s
 
 def setLabels (tns : List Tns) (i : Nat) (labels : List (List Char)) : List Tns :=
@@ -167,38 +169,36 @@ def hasLabel (labels : List (List Char)) (l : List Char) : Bool := labels.any (f
 def parseTaxlabels (i : Nat) (s : RS) : R RS := do
   let (t, s) ← requireTok s
   iter (fun s => do
-    match s.stok with
-    | none => .error (.internal "label is None")
-    | some label =>
-      if label == semi then pure (false, s)
-      else
-        let labels := labelsOf s.tns i
-        let s ← (if hasLabel labels label then pure s
-                 else if (match s.ntax with | some n => decide (labels.length ≥ n) | none => false) then perr .nexus   -- TooManyTaxaError
-                 else pure { s with tns := setLabels s.tns i (labels ++ [label]) } : R RS)
-        let (t, s) ← requireTok s
-        pure (true, { s with stok := some t })) { s with stok := some t }
+    let label := s.stok
+    if label == semi.text && !s.quoted then pure (false, s)      -- a quoted ';' is a label
+    else
+      let labels := labelsOf s.tns i
+      let s ← (if hasLabel labels label then pure s
+               else if (match s.ntax with | some n => decide (labels.length ≥ n) | none => false) then perr .nexus   -- TooManyTaxaError
+               else pure { s with tns := setLabels s.tns i (labels ++ [label]) } : R RS)
+      let (t, s) ← requireTok s
+      pure (true, { s with stok := t })) { s with stok := t }
 
 /-- `_parse_link_statement()` (repaired); results in `linkTaxa` / `linkChars` -/
 def parseLink (s : RS) : R RS := do
   let (t, s) ← requireUcase s
   iter (fun s => do
-    if s.stok == some semi then pure (false, s)
-    else if s.stok == some (kw "TAXA") then
+    if s.stok == semi.text then pure (false, s)
+    else if s.stok == kw "TAXA" then
       let (t, s) ← requireTok s
       if t != ['='] then perr .nexus else
       let (v, s) ← requireTok s
       let (t, s) ← requireUcase s
-      pure (true, { s with linkTaxa := some v, stok := some t })
-    else if s.stok == some (kw "CHARACTERS") then
+      pure (true, { s with linkTaxa := some v, stok := t })
+    else if s.stok == kw "CHARACTERS" then
       let (t, s) ← requireTok s
       if t != ['='] then perr .nexus else
       let (v, s) ← requireTok s
       let (t, s) ← requireUcase s
-      pure (true, { s with linkChars := some v, stok := some t })
+      pure (true, { s with linkChars := some v, stok := t })
     else
       let (t, s) ← requireUcase s
-      pure (true, { s with stok := some t })) { s with stok := some t, linkTaxa := none, linkChars := none }
+      pure (true, { s with stok := t })) { s with stok := t, linkTaxa := none, linkChars := none }
 
 /-- `_get_taxon_namespace(title)` : index of the namespace (a new one is appended when none exists and no title is given) -/
 def getTns (title : Option (List Char)) (s : RS) : R (Nat × RS) :=
@@ -226,7 +226,7 @@ def taxaBlock (s : RS) : R RS := do
       let s := { s with btok := some t }
       let s ← (if s.btok == some (kw "TITLE") then do
                  let s ← parseTitle s
-                 pure { s with btok := s.stok, tns := s.tns ++ [{ title := s.stok, labels := [] }], nsIdx := some s.tns.length }
+                 pure { s with btok := some s.stok, tns := s.tns ++ [{ title := some s.stok, labels := [] }], nsIdx := some s.tns.length }
                else pure s : R RS)
       let s ← (if s.btok == some (kw "DIMENSIONS") then parseDimensions s else pure s : R RS)
       let s ← (if s.btok == some (kw "TAXLABELS") then do
@@ -249,9 +249,8 @@ def ensureNs (s : RS) : R RS :=
     pure { s with nsIdx := some i }
 
 def ensureMapper (s : RS) : RS :=
-  match s.mapper with
-  | some _ => s
-  | none => { s with mapper := some (Mapper.ofNamespace (labelsOf s.tns (s.nsIdx.getD 0)) true), nsMutable := false }
+  if s.hasMapper then s
+  else { s with mapper := Mapper.ofNamespace (labelsOf s.tns (s.nsIdx.getD 0)) true, hasMapper := true, nsMutable := false }
 
 /-- `_parse_translate_statement` (repaired: `require_next_token` for the token and the label, one mapper per block) -/
 def parseTranslate (s : RS) : R RS := do
@@ -259,21 +258,19 @@ def parseTranslate (s : RS) : R RS := do
   let s := if s.ntax.isNone then { s with nsMutable := true } else s
   iter (fun s => do
     let (tt, s) ← requireTok s
-    if tt == semi && !s.quoted then perr .nexus else
+    if tt == semi.text && !s.quoted then perr .nexus else
     let (tl, s) ← requireTok s
-    match s.mapper with
-    | none => .error (.internal "mapper is None")
-    | some m =>
-      let r : R (Nat × Mapper) := match findLabel m.ns tl with
-        | some j => pure (j, m)
-        | none => if s.nsMutable then pure (m.ns.length, { m with ns := m.ns ++ [tl] }) else perr .nexus   -- UndefinedTaxonError
-      let (j, m) ← r
-      let m := { m with tokens := (lower tt, j) :: m.tokens }
-      let s := { s with mapper := some m }
-      let (t, s) ← nextTok s
-      if !truthy t || t == some semi then pure (false, s)
-      else if t != some comma then perr .nexus
-      else pure (true, s)) s
+    let m := s.mapper
+    let r : R (Nat × Mapper) := match findLabel m.ns tl with
+      | some j => pure (j, m)
+      | none => if s.nsMutable then pure (m.ns.length, { m with ns := m.ns ++ [tl] }) else perr .nexus   -- UndefinedTaxonError
+    let (j, m) ← r
+    let m := { m with tokens := (lower tt, j) :: m.tokens }
+    let s := { s with mapper := m }
+    let (t, s) ← nextTok s
+    if !truthy t || t == some semi.text then pure (false, s)
+    else if t != some comma.text then perr .nexus
+    else pure (true, s)) s
 
 /-- `NexusReader._parse_tree_statement` + the Newick statement parser (repaired: no tree → error) -/
 def parseTreeStatement (s : RS) : R RS := do
@@ -283,18 +280,26 @@ def parseTreeStatement (s : RS) : R RS := do
   let (t, s) ← nextTok s
   if t != some ['='] then perr .nexus else
   let (_, s) ← nextTok s
-  match s.mapper with
-  | none => .error (.internal "mapper is None")
-  | some m =>
-    match parseStatement s.cfg s.cur s.rest true m with
-    | .none_ => perr .eos
-    | .err e => perr e
-    | .tree _ next rest' m' _ =>
-      pure { s with cur := next, rest := rest', mapper := some m',
-                    nsMutable := if m'.ns.length > m.ns.length then false else s.nsMutable,
-                    treeLists := match s.treeLists.reverse with
-                      | [] => []
-                      | n :: r => ((n + 1) :: r).reverse }
+  let m := s.mapper
+  match parseStatement s.cfg (s.cur.map (fun t => ⟨t, s.quoted⟩)) s.rest true m with
+  | .none_ => perr .eos
+  | .err e => perr e
+  | .tree _ next rest' m' _ =>
+    pure { s with cur := next.map (·.text), quoted := (next.map (·.quoted)).getD false, rest := rest', mapper := m',
+                  nsMutable := if m'.ns.length > m.ns.length then false else s.nsMutable,
+                  treeLists := match s.treeLists.reverse with
+                    | [] => []
+                    | n :: r => ((n + 1) :: r).reverse }
+
+/-- `trees_block = self._new_tree_list(...)` at the first TREE statement of the block -/
+def startTreeList (s : RS) : RS :=
+  if s.treesBlock then s else { s with treesBlock := true, treeLists := s.treeLists ++ [0] }
+
+/-- the mapper dies with the block: its namespace keeps the taxa it created -/
+def closeMapper (s : RS) : RS :=
+  match s.hasMapper, s.nsIdx with
+  | true, some i => { s with tns := setLabels s.tns i s.mapper.ns, mapper := {}, hasMapper := false }
+  | _, _ => s
 
 def treesBlock (s : RS) : R RS := do
   let s ← skipToSemi s
@@ -308,15 +313,14 @@ def treesBlock (s : RS) : R RS := do
         pure (true, { s with linkTitle := s.linkTaxa })
       else if t == some (kw "TITLE") then do
         let s ← parseTitle s
-        pure (true, { s with blockTitle := s.stok, btok := some [] })
+        pure (true, { s with blockTitle := some s.stok, btok := some [] })
       else if t == some (kw "TRANSLATE") then do
         let s ← ensureNs s
         let s ← parseTranslate s
         pure (true, { s with btok := some [] })
       else if t == some (kw "TREE") then do
         let s ← ensureNs s
-        let s := ensureMapper s
-        let s := if s.treesBlock then s else { s with treesBlock := true, treeLists := s.treeLists ++ [0] }
+        let s := startTreeList (ensureMapper s)
         let s ← iter (fun s => do
           let s ← parseTreeStatement s
           if s.eof || !truthy s.cur then pure (false, s)
@@ -324,80 +328,81 @@ def treesBlock (s : RS) : R RS := do
           else pure (true, { s with cur := s.cur.map upper })) s
         pure (true, s)
       else if t == some (kw "BEGIN") then perr .nexus
-      else pure (true, s)) { s with linkTitle := none, nsIdx := none, mapper := none, nsMutable := true, treesBlock := false, blockTitle := none }
-  -- the mapper dies with the block: its namespace keeps the taxa it created
-  let s := match s.mapper, s.nsIdx with
-    | some m, some i => { s with tns := setLabels s.tns i m.ns, mapper := none }
-    | _, _ => s
-  skipToSemi s
+      else pure (true, s)) { s with linkTitle := none, nsIdx := none, mapper := {}, hasMapper := false, nsMutable := true, treesBlock := false, blockTitle := none }
+  skipToSemi (closeMapper s)
 
 /-! ### CHARACTERS / DATA -/
 /-- Python `t in l` for strings -/
 def isInfix (t l : List Char) : Bool := (List.range (l.length + 1)).any (fun i => (l.drop i).take t.length == t)
 
+/-- FORMAT … DATATYPE = x -/
+def fmtDatatype (s : RS) : R (Bool × RS) := do
+  let (t, s) ← requireUcase s
+  if t != ['='] then perr .nexus else
+  let (t, s) ← requireUcase s
+  let s := if t == kw "DNA" || t == kw "NUCLEOTIDES" then { s with dataType := .dna }
+    else if t == kw "RNA" then { s with dataType := .rna }
+    else if t == kw "NUCLEOTIDE" then { s with dataType := .nucleotide }
+    else if t == kw "PROTEIN" then { s with dataType := .protein }
+    else if t == kw "CONTINUOUS" then { s with dataType := .continuous }
+    else { s with dataType := .standard, symbols := kw "0123456789" }
+  let (t, s) ← requireUcase s
+  pure (true, { s with stok := t })
+
+/-- the loop over the tokens between the double quotes of SYMBOLS -/
+def fmtSymbolsLoop (s : RS) : R RS :=
+  iter (fun s => do
+    let t := s.stok
+    if t == ['"'] then pure (false, s)
+    else
+      let s := if isInfix t s.symbols then s else { s with symbols := s.symbols ++ t }
+      let (t, s) ← requireUcase s
+      pure (true, { s with stok := t })) s
+
+/-- FORMAT … SYMBOLS = " … " -/
+def fmtSymbols (s : RS) : R (Bool × RS) := do
+  let (t, s) ← requireUcase s
+  if t != ['='] then perr .nexus else
+  let (t, s) ← requireUcase s
+  if t != ['"'] then perr .nexus else
+  let (t, s) ← requireUcase s
+  let s ← fmtSymbolsLoop { s with symbols := [], stok := t }
+  let (t, s) ← requireUcase s
+  pure (true, { s with stok := t })
+
+/-- FORMAT … GAP = x / MISSING = x / MATCHCHAR = x -/
+def fmtAssign (field : Nat) (s : RS) : R (Bool × RS) := do
+  let (t, s) ← requireUcase s
+  if t != ['='] then perr .nexus else
+  let (v, s) ← requireUcase s
+  let (t, s) ← requireUcase s
+  let s := if field == 0 then { s with gap := v } else if field == 1 then { s with missing := v } else { s with matchc := [v, lower v] }
+  pure (true, { s with stok := t })
+
+/-- FORMAT … INTERLEAVE [= x] -/
+def fmtInterleave (s : RS) : R (Bool × RS) := do
+  let (t, s) ← requireUcase s
+  if t == ['='] then
+    let (v, s) ← requireUcase s
+    let (t, s) ← requireUcase s
+    pure (true, { s with interleave := !(v.head? == some 'N'), stok := t })
+  else pure (true, { s with interleave := true, stok := t })
+
 /-- `_parse_format_statement()` -/
 def parseFormat (s : RS) : R RS := do
   let (t, s) ← requireUcase s
   iter (fun s => do
-    if s.stok == some semi then pure (false, s)
-    else if s.stok == some (kw "DATATYPE") then
-      let (t, s) ← requireUcase s
-      if t != ['='] then perr .nexus else
-      let (t, s) ← requireUcase s
-      let s := if t == kw "DNA" || t == kw "NUCLEOTIDES" then { s with dataType := .dna }
-        else if t == kw "RNA" then { s with dataType := .rna }
-        else if t == kw "NUCLEOTIDE" then { s with dataType := .nucleotide }
-        else if t == kw "PROTEIN" then { s with dataType := .protein }
-        else if t == kw "CONTINUOUS" then { s with dataType := .continuous }
-        else { s with dataType := .standard, symbols := kw "0123456789" }
-      let (t, s) ← requireUcase s
-      pure (true, { s with stok := some t })
-    else if s.stok == some (kw "SYMBOLS") then
-      let (t, s) ← requireUcase s
-      if t != ['='] then perr .nexus else
-      let (t, s) ← requireUcase s
-      if t != ['"'] then perr .nexus else
-      let (t, s) ← requireUcase s
-      let s ← iter (fun s => do
-        match s.stok with
-        | none => .error (.internal "token is None")
-        | some t =>
-          if t == ['"'] then pure (false, s)
-          else
-            let s := if isInfix t s.symbols then s else { s with symbols := s.symbols ++ t }
-            let (t, s) ← requireUcase s
-            pure (true, { s with stok := some t })) { s with symbols := [], stok := some t }
-      let (t, s) ← requireUcase s
-      pure (true, { s with stok := some t })
-    else if s.stok == some (kw "GAP") then
-      let (t, s) ← requireUcase s
-      if t != ['='] then perr .nexus else
-      let (v, s) ← requireUcase s
-      let (t, s) ← requireUcase s
-      pure (true, { s with gap := v, stok := some t })
-    else if s.stok == some (kw "INTERLEAVE") then
-      let (t, s) ← requireUcase s
-      if t == ['='] then
-        let (v, s) ← requireUcase s
-        let (t, s) ← requireUcase s
-        pure (true, { s with interleave := !(v.head? == some 'N'), stok := some t })
-      else pure (true, { s with interleave := true, stok := some t })
-    else if s.stok == some (kw "MISSING") then
-      let (t, s) ← requireUcase s
-      if t != ['='] then perr .nexus else
-      let (v, s) ← requireUcase s
-      let (t, s) ← requireUcase s
-      pure (true, { s with missing := v, stok := some t })
-    else if s.stok == some (kw "MATCHCHAR") then
-      let (t, s) ← requireUcase s
-      if t != ['='] then perr .nexus else
-      let (v, s) ← requireUcase s
-      let (t, s) ← requireUcase s
-      pure (true, { s with matchc := [v, lower v], stok := some t })
-    else if s.stok == some (kw "BEGIN") then perr .nexus
+    if s.stok == semi.text then pure (false, s)
+    else if s.stok == kw "DATATYPE" then fmtDatatype s
+    else if s.stok == kw "SYMBOLS" then fmtSymbols s
+    else if s.stok == kw "GAP" then fmtAssign 0 s
+    else if s.stok == kw "INTERLEAVE" then fmtInterleave s
+    else if s.stok == kw "MISSING" then fmtAssign 1 s
+    else if s.stok == kw "MATCHCHAR" then fmtAssign 2 s
+    else if s.stok == kw "BEGIN" then perr .nexus
     else
       let (t, s) ← requireUcase s
-      pure (true, { s with stok := some t })) { s with stok := some t }
+      pure (true, { s with stok := t })) { s with stok := t }
 
 def rowLen (s : RS) (r : Nat) : Nat := ((s.rows[r]?).map (·.2)).getD 0
 
@@ -453,7 +458,7 @@ def readStates (symOk : Char → Bool) (r : Nat) (s : RS) : R RS := do
         if s.multi.all symOk then pure (true, { s with added := s.added + 1 }) else perr .nexus
       else if t == ['\r'] || t == ['\n'] then
         pure (!s.interleave, s)
-      else if t == semi then pure (false, { s with terminated := true })
+      else if t == semi.text then pure (false, { s with terminated := true })
       else
         -- one state per character of the token
         let n ← cellsOf symOk s.matchc (s.first.map (rowLen s)) (rowLen s r) nchar t s.added
@@ -475,19 +480,13 @@ def rowFor (i : Nat) (label : List Char) (s : RS) : R (Nat × RS) := do
   | some r => pure (r, s)
   | none => pure (s.rows.length, { s with rows := s.rows ++ [(tx, 0)] })
 
-/-- `_parse_matrix_statement` / `_process_discrete_matrix_data` -/
-def parseMatrix (sy : Syms) (s : RS) : R RS := do
-  if s.ntax.getD 0 == 0 || s.nchar.getD 0 == 0 then perr .nexus else
-  let (i, s) ← getTns s.linkTitle s
-  let s := { s with matTitles := s.matTitles ++ [s.blockTitle], rows := [], first := none }
-  let symOk ← symbolTest sy s
-  let nchar := s.nchar.getD 0
-  let (t, s) ← nextTok s
-  let s ← iter (fun s => do
+/-- the row loop of `_process_discrete_matrix_data` (sequential and interleaved) -/
+def matrixRows (symOk : Char → Bool) (i nchar : Nat) (s : RS) : R RS :=
+  iter (fun s => do
     match s.btok with
     | none => pure (false, s)
     | some label =>
-      if label == semi || s.eof then pure (false, s)
+      if label == semi.text || s.eof then pure (false, s)
       else
         let (r, s) ← rowFor i label s
         let s ← readStates symOk r s
@@ -500,11 +499,32 @@ def parseMatrix (sy : Syms) (s : RS) : R RS := do
         else if !s.interleave && rowLen s r < nchar then perr .nexus
         else
           let (t, s) ← nextTok s
-          pure (true, { s with btok := t })) { s with btok := t }
-  if s.rows.length > s.ntax.getD 0 then perr .nexus             -- more sequences than the declared NTAX
+          pure (true, { s with btok := t })) s
+
+/-- the declared-versus-found checks at the end of `_parse_matrix_statement` -/
+def matrixCheck (nchar : Nat) (s : RS) : R RS :=
+  if (match s.blockNtax with | some n => decide (s.rows.length > n) | none => false) then perr .nexus   -- more sequences than this block's NTAX
   else if s.rows.all (fun x => x.2 == nchar) then
     pure { s with mats := s.mats ++ [s.rows.map (·.2)], btok := some (kw "MATRIX") }
-  else perr .nexus                                           -- the declared-versus-found check
+  else perr .nexus
+
+/-- `_parse_matrix_statement` / `_process_discrete_matrix_data` -/
+def parseMatrix (sy : Syms) (s : RS) : R RS := do
+  if s.ntax.getD 0 == 0 || s.nchar.getD 0 == 0 then perr .nexus else
+  let (i, s) ← getTns s.linkTitle s
+  let s := { s with matTitles := s.matTitles ++ [s.blockTitle], rows := [], first := none }
+  let symOk ← symbolTest sy s
+  let nchar := s.nchar.getD 0
+  let (t, s) ← nextTok s
+  let s ← matrixRows symOk i nchar { s with btok := t }
+  matrixCheck nchar s
+
+/-- after a DIMENSIONS statement of a CHARACTERS/DATA block: an NTAX given there is the block's own; otherwise the
+file-level value stays -/
+def restoreNtax (before : Option Nat) (s : RS) : RS :=
+  match s.ntax with
+  | none => { s with ntax := before }
+  | some n => { s with blockNtax := some n }
 
 def charsBlock (sy : Syms) (s : RS) : R RS := do
   let s ← skipToSemi s
@@ -515,13 +535,14 @@ def charsBlock (sy : Syms) (s : RS) : R RS := do
       let s := { s with btok := t }
       if t == some (kw "TITLE") then do
         let s ← parseTitle s
-        pure (true, { s with blockTitle := s.stok })
+        pure (true, { s with blockTitle := some s.stok })
       else if t == some (kw "LINK") then do
         let s ← parseLink s
         pure (true, { s with linkTitle := s.linkTaxa })
       else if t == some (kw "DIMENSIONS") then do
-        let s ← parseDimensions s
-        pure (true, s)
+        let before := s.ntax
+        let s ← parseDimensions { s with ntax := none }
+        pure (true, restoreNtax before s)
       else if t == some (kw "FORMAT") then do
         let s ← parseFormat s
         pure (true, s)
@@ -529,7 +550,7 @@ def charsBlock (sy : Syms) (s : RS) : R RS := do
         let s ← parseMatrix sy s
         pure (true, s)
       else if t == some (kw "BEGIN") then perr .nexus
-      else pure (true, s)) { s with blockTitle := none, linkTitle := none, dataType := .standard }
+      else pure (true, s)) { s with blockTitle := none, linkTitle := none, dataType := .standard, blockNtax := none }
   skipToSemi s
 
 /-! ### SETS / ASSUMPTIONS / CODONS -/
@@ -552,11 +573,14 @@ def setsBlock (s : RS) : R RS := do
   skipToSemi s
 
 /-! ### the stream -/
-def readBlock (sy : Syms) (s : RS) : R RS := do
-  -- skip to BEGIN
-  let s ← iter (fun s => do
+/-- `token = next_token_ucase(); while token != None and token != 'BEGIN' and not is_eof(): token = next_token_ucase()` -/
+def skipToBegin (s : RS) : R RS :=
+  iter (fun s => do
     let (t, s) ← nextUcase s
     pure (t.isSome && t != some (kw "BEGIN") && !s.eof, s)) s
+
+def readBlock (sy : Syms) (s : RS) : R RS := do
+  let s ← skipToBegin s
   let (t, s) ← nextUcase s
   let s := { s with btok := t }
   if t == some (kw "TAXA") then taxaBlock s
